@@ -174,7 +174,24 @@ func (la *lockAnalysis) summarize(fn *types.Func) *lockSummary {
 		id, ok := ast.Unparen(e).(*ast.Ident)
 		return ok && recvObj != nil && la.info.ObjectOf(id) == recvObj
 	}
-	otherHeld := map[string]bool{} // base expression strings whose mutex is held (path-insensitive, coarse)
+	// other objects of type T whose mutex is taken in this function: one state bit per base expression
+	otherBit := map[string]flow.State{}
+	bitOf := func(base ast.Expr) flow.State {
+		key := types.ExprString(ast.Unparen(base))
+		if b, ok := otherBit[key]; ok {
+			return b
+		}
+		if len(otherBit) >= 16 {
+			return 0
+		}
+		b := flow.State(1) << uint(8+len(otherBit))
+		otherBit[key] = b
+		return b
+	}
+	heldOther := func(base ast.Expr, s flow.State) bool {
+		b, ok := otherBit[types.ExprString(ast.Unparen(base))]
+		return ok && s&b != 0
+	}
 	// locals bound to a freshly constructed T in this function: not yet
 	// reachable by other goroutines, so no lock is needed until published
 	fresh := map[types.Object]bool{}
@@ -223,7 +240,7 @@ func (la *lockAnalysis) summarize(fn *types.Func) *lockSummary {
 		if id, ok := ast.Unparen(base).(*ast.Ident); ok && fresh[la.info.ObjectOf(id)] {
 			return
 		}
-		if !otherHeld[types.ExprString(ast.Unparen(base))] {
+		if !heldOther(base, s) {
 			note("unlocked", pos, "field "+field+" of "+types.ExprString(base)+" is accessed without holding "+types.ExprString(base)+"."+la.spec.mutex)
 		}
 	}
@@ -268,10 +285,14 @@ func (la *lockAnalysis) summarize(fn *types.Func) *lockSummary {
 						return []flow.State{s &^ lkR}
 					}
 				} else {
-					key := types.ExprString(ast.Unparen(base))
+					b := bitOf(base)
 					if op == "Lock" || op == "RLock" {
-						otherHeld[key] = true
+						if s&b != 0 {
+							note("reentry", x.Pos(), op+"() on "+types.ExprString(base)+" while its lock is already held: self-deadlock")
+						}
+						return []flow.State{s | b}
 					}
+					return []flow.State{s &^ b}
 				}
 				return []flow.State{s}
 			}
@@ -312,6 +333,9 @@ func (la *lockAnalysis) summarize(fn *types.Func) *lockSummary {
 					}
 					if cs.takes && isRecv(obj) && s&(lkW|lkR) != 0 {
 						note("reentry", x.Pos(), "calls "+core.FuncName(la.decls[fn2])+", which takes this object's lock, while the lock is already held: self-deadlock (sync.RWMutex is not reentrant)")
+					}
+					if cs.takes && !isRecv(obj) && heldOther(obj, s) {
+						note("reentry", x.Pos(), "calls "+core.FuncName(la.decls[fn2])+", which takes "+types.ExprString(obj)+"."+la.spec.mutex+", while that lock is already held here: self-deadlock (sync.RWMutex is not reentrant)")
 					}
 				}
 			}
@@ -364,6 +388,7 @@ func (la *lockAnalysis) summarize(fn *types.Func) *lockSummary {
 		visitExpr(cond, s, false)
 		return s, true
 	}
+	h.Eval = func(e ast.Expr, s flow.State) { visitExpr(e, s, false) }
 	h.PreReturn = func(ret *ast.ReturnStmt, lit *ast.FuncLit, s flow.State) flow.State {
 		if ret != nil {
 			for _, e := range ret.Results {
